@@ -10,7 +10,7 @@ ID = 'C15'
 LEVEL = 'model_checking'
 RULE = ('every ordered selection of <= K of the equations {X=f(Y), X=g(Y,Z), Y=h(Z), Y=Z, Z=a, Y=b, X=[Y|Z], Z=[], '
         'Z=k(W), W=c} (every order in which a variable and the variables inside its value can get bound), established (1) as '
-        'nested unify generators through the Python API and (2) as the body of a compiled clause, also consumed through '
+        'nested unify generators through the Python API (with the engine\'s term classes and with the caller\'s own subclasses of Variable and Functor) and (2) as the body of a compiled clause, also consumed through '
         'findall/3 and through assertz + later read-back. At the innermost point get_value of X,Y,Z must be the fully '
         'dereferenced reference term (no bound variable anywhere inside), to_python must equal the reference value at '
         'every depth; the saved get_value results must be structurally unchanged after all generators are closed / '
@@ -93,9 +93,15 @@ def ref_envs(seq):
     return envs, True
 
 
-def check_api(seq):
+def check_api_user_terms(seq):
+    return check_api(seq, user_terms=True)
+
+
+def check_api(seq, user_terms=False):
     envs, allok = ref_envs(seq)  # may raise Cyclic
     yp = impl.YP()
+    if user_terms:
+        yp = impl.UserTerms(yp)
     vm = {}
     ev = [impl.to_engine(yp, v, vm) for v in VARS]
     gens = []
@@ -400,7 +406,7 @@ def run_shard(spec):
     for idx, seq in sequences(kmax):
         if idx % n != k:
             continue
-        for flavor, fn in (('api', check_api), ('compiled', check_compiled)):
+        for flavor, fn in (('api', check_api), ('api-user-term-classes', check_api_user_terms), ('compiled', check_compiled)):
             acc.n['evaluations'] += 1
             try:
                 with watchdog(60):
@@ -435,7 +441,7 @@ def replay(case):
         from .. import bindhist as bh
         r = bh.run_history(tuple(case['history']))
         return [(r[1], r[2])] if r[0] == 'violation' else []
-    fn = check_api if case['flavor'] == 'api' else check_compiled
+    fn = {'api': check_api, 'api-user-term-classes': check_api_user_terms}.get(case['flavor'], check_compiled)
     try:
         r = fn(tuple(case['seq']))
     except (Cyclic, Unspecified, Budget):
